@@ -65,12 +65,22 @@ func E1(t *testing.T, name string, budget int, opt Options, body func() Verdict)
 				return cached
 			}
 			ends := map[string]int{}
+			abandoned, ran := 0, n
 			for i := 0; i < n; i++ {
 				var v Verdict
 				e := RunFree(t, int64(i), func() { v = body() })
 				ends[e]++
 				if os.Getenv("VERIF_DEBUG") != "" {
 					fmt.Fprintf(os.Stderr, "free run %s #%d: ended %q obs %q bad %q\n", name, i, e, v.Obs, v.Bad)
+				}
+				if strings.HasPrefix(e, "abandoned") {
+					abandoned++
+					if abandoned >= 3 {
+						// each abandoned run costs the watchdog's 20 s of real time; a scenario that keeps
+						// stalling free-running is reported as such instead of eating the check's time
+						ran = i + 1
+						break
+					}
 				}
 			}
 			var log []string
@@ -80,7 +90,11 @@ func E1(t *testing.T, name string, budget int, opt Options, body func() Verdict)
 				}
 			}
 			sort.Strings(log)
-			cached = &verifx.Outcome{Steps: n, Obs: "free-running", Log: log}
+			obs := "free-running"
+			if abandoned > 0 {
+				obs = fmt.Sprintf("free-running; %d of %d runs abandoned (stalled on a mutex inside the bubble)", abandoned, ran)
+			}
+			cached = &verifx.Outcome{Steps: ran, Obs: obs, Log: log}
 			return cached
 		}}
 	}
